@@ -692,6 +692,14 @@ def _odd_exception(kind: str) -> BaseException:
         return ValueError()
     if kind == "two_arg_custom":
         return VTwoArgError("stage-2", 17)
+    # exactly ONE argument, and not a string / not JSON-encodable: a wrapped exception, a key that is a tuple holding a
+    # frozenset, bytes
+    if kind == "wraps_exception":
+        return RuntimeError(ZeroDivisionError("float division by zero"))
+    if kind == "key_error_frozenset":
+        return KeyError((frozenset({"a"}), 2))
+    if kind == "value_error_bytes":
+        return ValueError(b"\xff raw")
     return ZeroDivisionError("float division by zero")
 
 
@@ -704,7 +712,8 @@ class VTwoArgError(Exception):
 
 
 ODD_EXCEPTION_KINDS = ["unicode_decode", "unicode_encode", "exception_group", "os_error", "key_error_tuple",
-                       "stop_iteration", "empty_message", "two_arg_custom", "zero_division"]
+                       "stop_iteration", "empty_message", "two_arg_custom", "zero_division",
+                       "wraps_exception", "key_error_frozenset", "value_error_bytes"]
 
 
 class VRaise(_VFloatOp):
